@@ -1,6 +1,7 @@
 package spine
 
 import (
+	"errors"
 	"fmt"
 
 	"github.com/ahmetb/go-linq/v3"
@@ -60,6 +61,10 @@ func (r *NodeManagement) handleMsgSubscriptionData(message *api.Message) error {
 }
 
 func (r *NodeManagement) handleMsgSubscriptionRequestCall(message *api.Message, data *model.NodeManagementSubscriptionRequestCallType) error {
+	if data == nil || data.SubscriptionRequest == nil {
+		return errors.New("nodemanagement.handleMsgSubscriptionRequestCall: missing subscriptionRequest")
+	}
+
 	switch message.CmdClassifier {
 	case model.CmdClassifierTypeCall:
 		subscriptionMgr := r.Device().SubscriptionManager()
@@ -72,6 +77,10 @@ func (r *NodeManagement) handleMsgSubscriptionRequestCall(message *api.Message, 
 }
 
 func (r *NodeManagement) handleMsgSubscriptionDeleteCall(message *api.Message, data *model.NodeManagementSubscriptionDeleteCallType) error {
+	if data == nil || data.SubscriptionDelete == nil {
+		return errors.New("nodemanagement.handleMsgSubscriptionDeleteCall: missing subscriptionDelete")
+	}
+
 	switch message.CmdClassifier {
 	case model.CmdClassifierTypeCall:
 		subscriptionMgr := r.Device().SubscriptionManager()
